@@ -293,11 +293,14 @@ class DAGRunConcurrentManager(DAGRunManagerLike):
             if not self.dag.graph.nodes[u].get(NodeField.is_oneof_child) or u == dest:
                 return True
 
-            # A child that is also an ordinary dependency of another node is an ordinary node for that node:
+            # A child that is also an ordinary dependency of another node of this dag is an ordinary node for that node:
             # otherwise the node would wait for a result that comes only if OneOf happens to try the child.
-            # (Being a case of a switch is not an ordinary dependency: the case is run only if it is selected.)
+            # (Being a case of a switch is not an ordinary dependency: the case is run only if it is selected. A
+            # consumer that is itself a child hidden from this dag does not count either.)
             return any(
-                not self._is_head_of_oneof(v) and self.dag.graph.edges[u, v].get(EdgeField.case_branch) is None
+                not self._is_head_of_oneof(v)
+                and self.dag.graph.edges[u, v].get(EdgeField.case_branch) is None
+                and _filter_node(v)
                 for v in self.dag.graph.successors(u)
             )
 
